@@ -191,6 +191,34 @@ type Runner struct {
 	// ShrinkMax the number of disagreements that get shrunk (default 40); lower them when one
 	// execution of a case is expensive.
 	ShrinkBudget, ShrinkMax int
+	// NoShrinkKeys: disagreement classes that are not worth shrinking on every run (e.g. the keys
+	// listed as `known` in known_findings.json, see LoadKnownKeys); the unshrunk case is kept.
+	NoShrinkKeys map[string]bool
+}
+
+// LoadKnownKeys reads known_findings.json and marks the `known` keys of this property as not to be
+// shrunk. A missing or unreadable file changes nothing.
+func (r *Runner) LoadKnownKeys(path string) {
+	b, err := os.ReadFile(path)
+	if err != nil {
+		return
+	}
+	var ents []struct {
+		Property string `json:"property"`
+		Status   string `json:"status"`
+		Key      string `json:"key"`
+	}
+	if json.Unmarshal(b, &ents) != nil {
+		return
+	}
+	for _, e := range ents {
+		if e.Property == r.F.Prop && e.Status == "known" {
+			if r.NoShrinkKeys == nil {
+				r.NoShrinkKeys = map[string]bool{}
+			}
+			r.NoShrinkKeys[e.Key] = true
+		}
+	}
 }
 
 func NewRunner(f *Flags, harness string, impl Impl, rule string) *Runner {
@@ -296,7 +324,18 @@ func (r *Runner) record(d Disagreement) {
 	if r.ShrinkMax > 0 {
 		max = r.ShrinkMax
 	}
-	if d.Case.Domain && len(r.Res.Disagreements) < max && !(d.Kind == "tie-broken" && r.tieKept >= 3) {
+	skip := false
+	if len(r.NoShrinkKeys) > 0 {
+		pre := d.Key
+		if pre == "" {
+			pre = d.Case.Key
+			if r.KeyOf != nil {
+				pre = r.KeyOf(&d)
+			}
+		}
+		skip = r.NoShrinkKeys[pre]
+	}
+	if !skip && d.Case.Domain && len(r.Res.Disagreements) < max && !(d.Kind == "tie-broken" && r.tieKept >= 3) {
 		r.shrink(&d)
 	}
 	if d.Key == "" {
